@@ -817,6 +817,15 @@ func (c *fsClient) Call(x *Exec, st *State, fr *Frame, site ssa.CallInstruction,
 		if k == kList {
 			c.violate(st, "LIST-WRITE", role+" / "+name+"(LIST)", pos, "the list file is written in place instead of being replaced by an atomic rename")
 		}
+		if k == kListLock || k == kSubLock || k == kOtherLck {
+			// create-or-truncate by name: not the handle of the exclusive create.  If
+			// the lock has been released meanwhile this takes (or clobbers) the lock
+			// of another handle without the atomic test
+			c.violate(st, "LOCK-EXCL", role+" / create "+k, pos, "a lock file is written by name (created or truncated without O_EXCL) instead of through the handle its exclusive creation returned: once this operation's lock is released, the same call creates or overwrites the lock of another handle")
+			g.written[gk(args[0])] = args[1]
+			g.wclosed[gk(args[0])] = args[0]
+			c.note(st, pos, "write %s by name <- %s", k, args[1])
+		}
 		return ret(tNil)
 	case "os.Open":
 		return true, c.open(x, st, fr, site, args[0])
@@ -849,6 +858,9 @@ func (c *fsClient) Call(x *Exec, st *State, fr *Frame, site ssa.CallInstruction,
 		k := c.kind(st, args[0])
 		content := mk("content", fr.ctx+"/"+siteID(fr, site), nil, x.curMark())
 		c.note(st, pos, "read %s", k)
+		if k == kList {
+			g.setFlag("listReadInCall", tTrue)
+		}
 		outs := []CallOut{{St: st, Val: tupleOf(content, tNil)}}
 		// rely R3: conforming handles never remove the list, so it is missing
 		// only while nothing was ever committed - then every handle's stack is
@@ -866,6 +878,10 @@ func (c *fsClient) Call(x *Exec, st *State, fr *Frame, site ssa.CallInstruction,
 		l := mk("dirents", fr.ctx+"/"+siteID(fr, site), nil, x.curMark())
 		return ret(tupleOf(l, tNil))
 	case "(*os.File).Write", "(*os.File).WriteString":
+		if args[0].isNilConst() || st.truth(tEq(args[0], tNil)) == 1 {
+			// a nil *os.File: the call fails with ErrInvalid and touches nothing
+			return true, []CallOut{{St: st, Val: tupleOf(tConst("0", nil), errT("EINVAL"))}}
+		}
 		p := g.fileOf[args[0].key]
 		if p != nil {
 			g.written[gk(p)] = args[1]
@@ -881,6 +897,9 @@ func (c *fsClient) Call(x *Exec, st *State, fr *Frame, site ssa.CallInstruction,
 		}
 		return true, outs
 	case "(*os.File).Close":
+		if args[0].isNilConst() || st.truth(tEq(args[0], tNil)) == 1 {
+			return true, []CallOut{{St: st, Val: errT("EINVAL")}}
+		}
 		if p := g.fileOf[args[0].key]; p != nil {
 			g.wclosed[gk(p)] = p
 			c.note(st, pos, "close handle of %s", c.kind(st, p))
